@@ -13,8 +13,9 @@
 //	           that holds resMu, together with whether id is in resCh at that moment)
 //	R(L)       RequestFrom returned
 //
-// ordered by one atomic logical clock.  Elapsed time never enters a verdict; timers and
-// failpoint sleeps only steer the schedule.  Every RequestFrom runs under the deadlock rule.
+// ordered by one atomic logical clock.  Elapsed time enters one verdict only, as a one-sided
+// lower bound that load cannot break ("timeout" reported sooner than attempts x timeout);
+// otherwise timers and failpoint sleeps only steer the schedule.  Every RequestFrom runs under the deadlock rule.
 package main
 
 import (
@@ -118,7 +119,7 @@ type outcome struct {
 	ErrStr  string
 	Data    []byte
 	PeerID  p2p.PeerID
-	Elapsed time.Duration // evidence only
+	Elapsed time.Duration // evidence; lower bound in the premature-timeout rule
 }
 
 type reqState struct {
@@ -675,6 +676,26 @@ func (sc *scenario) judge(sp spec, fired map[string]int) {
 			} else if o.PeerID != sc.nodes[p.To].ID() {
 				k.Violation("miscorrelation:response-peer-id",
 					"Response.PeerID() is not the peer the request was sent to", wit())
+			}
+		}
+
+		// premature timeout: RequestFrom reports "timeout" only after every attempt it started has
+		// waited the full request timeout (an attempt ends earlier only through a reply or the
+		// context, and then the result is not "timeout"). Timers never fire early and load only
+		// lengthens a run, so "returned sooner than attempts x timeout" is a one-sided bound that
+		// cannot be produced by a slow machine: the requester gave up on an attempt whose reply was
+		// still due (and drops it as "unknown request ID" when it arrives in time).
+		if o.Class == "timeout" && p.Cancel < 0 {
+			att := len(st.inv)
+			if len(st.dSeq) > att {
+				att = len(st.dSeq)
+			}
+			k.Count("timeout_results_checked_against_attempts_x_timeout", 1)
+			if o.Elapsed < time.Duration(att)*reqTimeout-time.Millisecond {
+				w := wit()
+				w["attempts_started"], w["elapsed_ms"], w["request_timeout_ms"] = att, o.Elapsed.Milliseconds(), reqTimeout.Milliseconds()
+				k.Violation("lost-response:timeout-reported-before-the-deadline-of-an-attempt",
+					"RequestFrom returned 'timeout' sooner than (attempts started) x (request timeout): it stopped waiting for an attempt before that attempt's deadline, so a reply arriving in time is dropped", w)
 			}
 		}
 
